@@ -246,14 +246,24 @@ class Gen:
                  "%s(%s);" % (inst, ", ".join(formal[:1]))]
         return calls
 
-    def function(self):
+    def function(self, callee=None):
+        """a function; `callee` = an fb Decl the function declares an instance of (and invokes): the instance is local to the
+        function like any other variable -- what a rule remembers about it must not reach the unit visited next"""
         r = self.rng
         n = self.names.fresh("Fn")
         ins = [(self.names.fresh("a"), "INT") for _ in range(r.randint(1, 3))]
         loc = self.names.fresh("t")
-        lines = ["FUNCTION %s : INT" % n, "VAR_INPUT"] + ["  %s : %s;" % v for v in ins] + ["END_VAR", "VAR", "  %s : INT;" % loc, "END_VAR"]
-        info = {"inputs": ins, "body_start": len(lines)}
-        lines += self.stmts([v for v, _ in ins] + [loc], [], []) + ["  %s := %s;" % (n, self.int_expr([v for v, _ in ins] + [loc])), "END_FUNCTION"]
+        lines = ["FUNCTION %s : INT" % n, "VAR_INPUT"] + ["  %s : %s;" % v for v in ins] + ["END_VAR", "VAR", "  %s : INT;" % loc]
+        info = {"inputs": ins}
+        calls = []
+        if callee is not None:
+            inst = self.names.fresh("inst")
+            lines.append("  %s : %s;" % (inst, callee.name))
+            info["instance"] = (inst, callee.name)
+            calls = self.fb_calls(inst, callee, [v for v, _ in ins] + [loc], [])[:1]
+        lines.append("END_VAR")
+        info["body_start"] = len(lines)
+        lines += self.stmts([v for v, _ in ins] + [loc], [], []) + calls + ["  %s := %s;" % (n, self.int_expr([v for v, _ in ins] + [loc])), "END_FUNCTION"]
         return Decl("function", n, lines, info)
 
     def program(self, callee=None, glob=None, name=None):
@@ -333,7 +343,7 @@ def gen_valid(rng):
         fbs.append(g.fb(callee, enums, shadow))
     decls += fbs
     if rng.random() < 0.5:
-        decls.append(g.function())
+        decls.append(g.function(rng.choice(fbs) if rng.random() < 0.5 else None))
     prog = g.program(rng.choice(fbs) if rng.random() < 0.8 else None, glob)
     decls.append(prog)
     if glob is not None or rng.random() < 0.5:
@@ -481,15 +491,17 @@ def mutants(decls, rng):
             nd = d.copy()
             nd.lines.insert(vl + 1, "  untyped_var : NoSuchType;")
             out.append(("P0022", "variable of an undeclared type in %s" % d.name, with_decl(i, nd)))
-        if d.kind in ("fb", "program") and "instance" in d.info:
+        if d.kind in ("fb", "program", "function") and "instance" in d.info:
             # the instance of this unit invoked in another unit that does not declare it: instances are local to their unit
+            # (seed C06l: the instances a FUNCTION declares were remembered for the unit visited next)
             inst = d.info["instance"][0]
             for pi, x in enumerate(decls):
                 if pi != i and x.kind in ("fb", "program") and x.info.get("instance", (None,))[0] != inst:
                     nd = x.copy()
                     nd.lines.insert(len(nd.lines) - 1, "  %s();" % inst)
-                    out.append(("P0021", "instance %s of %s invoked in %s, which does not declare it" % (inst, d.name, x.name), with_decl(pi, nd)))
-                    break
+                    out.append(("P0021", "instance %s of %s %s invoked in %s, which does not declare it" % (inst, d.kind, d.name, x.name), with_decl(pi, nd)))
+                    if d.kind != "function":
+                        break
         if d.kind == "configuration" and d.info.get("global"):
             # a program that uses the global without declaring it VAR_EXTERNAL: the name is not in its scope
             gname = d.info["global"][0]
